@@ -443,7 +443,9 @@ func (ch *channel) handlePacket(packet []byte) error {
 		return ch.handleData(packet)
 	case msgChannelClose:
 		ch.sendMessage(channelCloseMsg{PeersID: ch.remoteId})
-		ch.mux.chanList.remove(ch.localId)
+		// A concurrent Reject may already have freed the id, and OpenChannel
+		// may have given it to another channel: only remove this channel.
+		ch.mux.chanList.removeChan(ch.localId, ch)
 		ch.close()
 		return nil
 	case msgChannelEOF:
@@ -464,7 +466,7 @@ func (ch *channel) handlePacket(packet []byte) error {
 		if err := ch.responseMessageReceived(); err != nil {
 			return err
 		}
-		ch.mux.chanList.remove(msg.PeersID)
+		ch.mux.chanList.removeChan(msg.PeersID, ch)
 		ch.msg <- msg
 	case *channelOpenConfirmMsg:
 		if err := ch.responseMessageReceived(); err != nil {
